@@ -150,6 +150,12 @@ TEquals ==
   /\ (Judge("C01") /\ status = "ok" /\ Rec.res.st = "ok") =>
         Note(Rec.res.bool = Eq(doc, ctx.b, ctx.o), "C01", "equals-oracle")
 
+(* a patched document is a document like any other: its diff against b is empty exactly when it Equals b (C05 on a value *)
+(* that Patch returned, in both directions)                                                                              *)
+TRediff ==
+  /\ IsEvent("Rediff") /\ Consume /\ UNCHANGED <<ctx, doc, rest, status>>
+  /\ Judge("C05") => CheckK(Rec.st = "ok" /\ ((Rec.n1 = 0) <=> Rec.eq) /\ ((Rec.n2 = 0) <=> Rec.eq), "C05", "patched-document-rediff")
+
 (* the same statement on one set of live values: the diff applied to the very a it was computed from *)
 TSame ==
   /\ IsEvent("Same") /\ Consume /\ UNCHANGED <<ctx, doc, rest, status>>
@@ -177,7 +183,7 @@ TEnd ==
 Next ==
   \/ TBegin \/ TDiff \/ TTarget
   \/ TStepOk \/ TStepErr \/ TStepAmb \/ TStepKnown \/ TStepMismatch \/ TStepAfter
-  \/ TEquals \/ TEqualsAB \/ TSame \/ TEnd
+  \/ TEquals \/ TEqualsAB \/ TSame \/ TRediff \/ TEnd
   \/ (Done /\ UNCHANGED <<doc, rest, status, ctx>>)
 
 Spec == Init /\ [][Next]_vars
